@@ -19,10 +19,11 @@ import (
 
 // Case: where the expression is written, what kind of statement carries it, which expression.
 type Case struct {
-	Placement string `json:"placement"`  // direct grouping-local grouping-remote augment-from-user augment-into-user typedef-remote submodule grouping-unused
-	Carrier   string `json:"carrier"`    // must when path
-	Expr      int    `json:"expr"`       // index into the expression table of the carrier
-	UserBinds string `json:"user_binds"` // how the using module M2 binds prefix x: other | none | same
+	Placement string `json:"placement"`           // direct grouping-local grouping-remote augment-from-user augment-into-user typedef-remote submodule grouping-unused
+	Carrier   string `json:"carrier"`             // must when path
+	Expr      int    `json:"expr"`                // index into the expression table of the carrier
+	UserBinds string `json:"user_binds"`          // how the using module M2 binds prefix x: other | none | same
+	Companion int    `json:"companion,omitempty"` // 1/2: M2 also writes the same expression on a leaf of its own, before/after the arriving one
 }
 
 type exprSpec struct {
@@ -83,8 +84,14 @@ func genCase(t *rapid.T) Case {
 		c.Carrier = only
 	}
 	c.Expr = rapid.IntRange(0, len(table(c.Carrier))-1).Draw(t, "expr")
+	if companionPlacements[c.Placement] {
+		c.Companion = rapid.IntRange(0, 2).Draw(t, "companion")
+	}
 	return c
 }
+
+// placements in which the expression written in M1 arrives in M2's tree: there M2 may carry the same text itself
+var companionPlacements = map[string]bool{"grouping-remote": true, "grouping-nested-remote": true, "typedef-remote": true}
 
 // placements that exist for one carrier only
 var onlyCarrier = map[string]string{"typedef-remote": "path", "typedef-unused": "path", "uses-when-remote": "when", "augment-when-remote": "when", "refine-must-remote": "must", "deviate-add-must": "must"}
@@ -126,7 +133,7 @@ func pathType(c Case, e string) *sg.TypeSpec {
 
 // build returns the module set, the name of the module whose text contains the expression, and the
 // prefix bindings (prefix -> namespace) of that module.
-func build(c Case) (mods []*sg.Mod, definer string, binds map[string]string) {
+func build(c Case) (mods []*sg.Mod, definer string, binds map[string]string, userBinds map[string]string) {
 	e := table(c.Carrier)[c.Expr].text
 	ma := &sg.Mod{Name: "ma", Prefix: "ma", Nodes: []*sg.Node{{Kind: "container", Name: "ma-top", Kids: []*sg.Node{leaf("x")}}}}
 	mb := &sg.Mod{Name: "mb", Prefix: "mb", Nodes: []*sg.Node{{Kind: "container", Name: "mb-top", Kids: []*sg.Node{leaf("x")}}}}
@@ -152,6 +159,7 @@ func build(c Case) (mods []*sg.Mod, definer string, binds map[string]string) {
 		bindsM2["x"], bindsM2["y"] = nsA, nsC
 	}
 	mods = []*sg.Mod{ma, mb, mc, m1, m2}
+	userBinds = bindsM2
 	cn := carrierNode(c, e)
 	definer, binds = "m1", bindsM1
 	switch c.Placement {
@@ -211,6 +219,16 @@ func build(c Case) (mods []*sg.Mod, definer string, binds map[string]string) {
 		mods = append(mods, sub)
 		definer = "m1-sub"
 	}
+	if c.Companion != 0 && companionPlacements[c.Placement] {
+		// the same text written in M2 itself means what M2's imports say
+		cc := carrierNode(c, e)
+		cc.Name = "companion"
+		if c.Companion == 1 {
+			m2.Nodes[0].Kids = append([]*sg.Node{cc}, m2.Nodes[0].Kids...)
+		} else {
+			m2.Nodes[0].Kids = append(m2.Nodes[0].Kids, cc)
+		}
+	}
 	return
 }
 
@@ -218,11 +236,13 @@ var locRe = regexp.MustCompile(`([A-Za-z0-9_\-]+)\.yang:(\d+):(\d+)`)
 
 var namePushRe = regexp.MustCompile(`Name-Push\t\{(\S*) (\S+)\}`)
 
-func findCarrier(ms schema.ModelSet) schema.Node {
+func findCarrier(ms schema.ModelSet) schema.Node { return findLeaf(ms, "carrier") }
+
+func findLeaf(ms schema.ModelSet, name string) schema.Node {
 	var found schema.Node
 	var walk func(n schema.Node)
 	walk = func(n schema.Node) {
-		if n.Name() == "carrier" {
+		if n.Name() == name {
 			found = n
 			return
 		}
@@ -237,12 +257,19 @@ func findCarrier(ms schema.ModelSet) schema.Node {
 func checkCase(c Case) fw.Outcome {
 	spec := table(c.Carrier)[c.Expr]
 	out := fw.Outcome{Labels: []string{"placement:" + c.Placement, "carrier:" + c.Carrier}, Key: fmt.Sprint(c)}
-	mods, definer, binds := build(c)
+	mods, definer, binds, userBinds := build(c)
 	unknownPrefix := false
 	for _, p := range spec.prefixes {
 		if _, ok := binds[p]; !ok {
 			unknownPrefix = true
 		}
+		if _, ok := userBinds[p]; !ok && c.Companion != 0 {
+			// the using module writes the same text itself and does not bind the prefix
+			unknownPrefix = true
+		}
+	}
+	if c.Companion != 0 {
+		out.Labels = append(out.Labels, "companion")
 	}
 	wantOK := spec.valid && !unknownPrefix
 	out.NonTrivial = c.UserBinds != "same" && len(spec.prefixes) > 0
@@ -271,6 +298,10 @@ func checkCase(c Case) fw.Outcome {
 	}
 	if res.OK() != wantOK {
 		out.Violation = fmt.Sprintf("%s %q written in %s (placement %s, user binds x: %s): expected compile ok=%v, got %s\n%s", c.Carrier, spec.text, definer, c.Placement, c.UserBinds, wantOK, res.Describe(), src)
+		return out
+	}
+	if !wantOK && c.Companion != 0 {
+		// which of the two statements the error names depends on the build order; locations are decided by the cases without a companion
 		return out
 	}
 	if !wantOK {
@@ -327,10 +358,24 @@ func checkCase(c Case) fw.Outcome {
 		return out
 	}
 	// on success: every prefixed step carries the namespace bound in the DEFINING module
-	n := findCarrier(res.MS)
-	if n == nil {
-		out.Violation = "carrier leaf not found in the compiled schema\n" + src
+	if msg := verifyLeaf(res.MS, "carrier", c, spec, binds, definer, src); msg != "" {
+		out.Violation = msg
 		return out
+	}
+	if c.Companion != 0 {
+		if msg := verifyLeaf(res.MS, "companion", c, spec, userBinds, "m2", src); msg != "" {
+			out.Violation = msg
+		}
+	}
+	return out
+}
+
+// verifyLeaf: the machine of the named leaf holds the source text and every prefixed step carries the namespace that
+// the module in which the statement is written binds to the prefix.
+func verifyLeaf(ms schema.ModelSet, name string, c Case, spec exprSpec, binds map[string]string, definer, src string) string {
+	n := findLeaf(ms, name)
+	if n == nil {
+		return name + " leaf not found in the compiled schema\n" + src
 	}
 	var mach *xpath.Machine
 	switch c.Carrier {
@@ -355,14 +400,12 @@ func checkCase(c Case) fw.Outcome {
 		}
 	}
 	if mach == nil {
-		out.Violation = fmt.Sprintf("no %s machine on the carrier leaf\n%s", c.Carrier, src)
-		return out
+		return fmt.Sprintf("no %s machine on the %s leaf\n%s", c.Carrier, name, src)
 	}
 	if mach.GetExpr() != spec.text {
-		out.Violation = fmt.Sprintf("machine expression %q differs from the source %q", mach.GetExpr(), spec.text)
-		return out
+		return fmt.Sprintf("machine expression %q differs from the source %q", mach.GetExpr(), spec.text)
 	}
-	// expected namespaces in order of appearance of prefixed names
+	// expected namespaces of the prefixed names
 	want := map[string]string{}
 	for _, m := range regexp.MustCompile(`([A-Za-z][A-Za-z0-9]*):([A-Za-z*][A-Za-z0-9\-]*)`).FindAllStringSubmatch(spec.text, -1) {
 		want[m[2]+"@"+m[1]] = binds[m[1]]
@@ -378,12 +421,11 @@ func checkCase(c Case) fw.Outcome {
 	for key, ns := range want {
 		local := strings.Split(key, "@")[0]
 		if !got[local][ns] {
-			out.Violation = fmt.Sprintf("%s %q written in %s, used via %s: step %s must resolve to namespace %s (binding of the defining module); machine has %v\n%s\n%s",
-				c.Carrier, spec.text, definer, c.Placement, key, ns, got[local], listing, src)
-			return out
+			return fmt.Sprintf("%s %q on leaf %s, written in %s (placement %s): step %s must resolve to namespace %s (binding of the module the statement is written in); machine has %v\n%s\n%s",
+				c.Carrier, spec.text, name, definer, c.Placement, key, ns, got[local], listing, src)
 		}
 	}
-	return out
+	return ""
 }
 
 var scope = fw.Register(&fw.Prop[Case]{
@@ -414,6 +456,12 @@ func TestAllCombinations(t *testing.T) {
 				for _, b := range []string{"other", "none", "same"} {
 					fw.Eval(scope, "/all", Case{Placement: p, Carrier: car, Expr: e, UserBinds: b})
 					n++
+					if companionPlacements[p] {
+						for comp := 1; comp <= 2; comp++ {
+							fw.Eval(scope, "/all", Case{Placement: p, Carrier: car, Expr: e, UserBinds: b, Companion: comp})
+							n++
+						}
+					}
 				}
 			}
 		}
